@@ -140,6 +140,13 @@ def gen_hist(tier, seed):
                 if L == 4 and ln == 4 and len(adds) > 2:
                     continue
                 yield {"kind": kind, "history": list(seq)}
+        # deeper histories behind fixed prefixes: a source that is disabled while the values change and enabled again, a read before and after the change
+        for pre in (["add:s_rel", "disable", "change", "enable"], ["add:s_abs", "add:m_cov_rel", "disable", "change", "enable"], ["add:s_rel_c", "read:cov", "disable", "change", "read:cov", "enable"], ["add:m_cor_rel", "read:err", "change"]):
+            for ln in range(0, 3 if tier == "thorough" else 2):
+                for seq in itertools.product(OPS, repeat=ln):
+                    if any(o.startswith("add:") and o in pre for o in seq):
+                        continue
+                    yield {"kind": kind, "history": pre + list(seq)}
 
 
 @R.oracle("total_is_sum_of_enabled_sources", gen_hist, obligation="")
